@@ -4,6 +4,7 @@ import (
 	"bytes"
 	"encoding/json"
 	"fmt"
+	"math/rand"
 	"regexp"
 	"strings"
 	"time"
@@ -74,6 +75,8 @@ func vScenarioC13(rc *runCtx) {
 		r.ender = []string{"exit", "fail-client", "fail-server", "ctrlc"}[tp.Pick("c13.ender", 4, 2, 2, 2)]
 		plan = append(plan, r)
 	}
+	// with the trace log on, everything that passes the relay is also written to a file; long bursts included
+	traceLog := !vOvertake && tp.Bool("c13.tracelog", 200)
 	cIn := w.NewLink("c>r")
 	cOut := w.NewLink("r>c")
 	sIn := w.NewLink("r>s")
@@ -84,7 +87,7 @@ func vScenarioC13(rc *runCtx) {
 		// the relay's detectors work per read: a trigger, an end-of-transfer marker or a lone Ctrl-C
 		// always arrives in one read of its own chunk
 		l.Atomic = func(d []byte) bool {
-			return bytes.Contains(d, []byte("::TRZSZ:TRANSFER:")) || bytes.Contains(d, []byte("#EXIT:")) || bytes.Contains(d, []byte("#FAIL:")) ||
+			return len(d) > 4096 || bytes.Contains(d, []byte("TRACE_LOG>")) || bytes.Contains(d, []byte("::TRZSZ:TRANSFER:")) || bytes.Contains(d, []byte("#EXIT:")) || bytes.Contains(d, []byte("#FAIL:")) ||
 				bytes.Contains(d, []byte("#fail:")) || (len(d) == 1 && d[0] == 0x03)
 		}
 		l.SealAtomic = true
@@ -124,11 +127,23 @@ func vScenarioC13(rc *runCtx) {
 		return []byte("#CFG:" + vEncode(js) + "\n")
 	}
 	plainN := func(max int) int { return tp.Draw("c13.plen", max) }
-	think := func() time.Duration { return time.Duration(tp.Pick("c13.think", 6, 2, 1)) * time.Duration(1+tp.Draw("c13.ms", 20)) * time.Millisecond }
+	think := func() time.Duration {
+		return time.Duration(tp.Pick("c13.think", 6, 2, 1)) * time.Duration(1+tp.Draw("c13.ms", 20)) * time.Millisecond
+	}
 	for r, rd := range plan {
 		id := fmt.Sprintf("%013d", int64(4668480000000)+int64(r)*100)
 		// server side of round r
 		ss = append(ss, vChunk{data: vNoise(tp, plainN(60), false), kind: "plain", round: r, sleep: think()})
+		if traceLog && tp.Bool("c13.burst", 600) {
+			// a long listing in one read
+			b := make([]byte, 4100+tp.Draw("c13.burstlen", 22000))
+			rr := rand.New(rand.NewSource(int64(tp.Draw("c13.burstseed", 1<<30))))
+			for i := range b {
+				const alpha = "abcdefghijklmnopqrstuvwxyz0123456789 -_./\r\n"
+				b[i] = alpha[rr.Intn(len(alpha))]
+			}
+			ss = append(ss, vChunk{data: b, kind: "plain", round: r, sleep: think()})
+		}
 		trig := []byte(fmt.Sprintf("\x1b7\x07::TRZSZ:TRANSFER:%s:1.1.8:%s:%d\r\n", []string{"S", "R", "D"}[tp.Draw("c13.mode", 3)], id, 0))
 		if tp.Bool("c13.trigprefix", 400) {
 			trig = append(vNoise(tp, 1+plainN(30), false), trig...)
@@ -222,10 +237,29 @@ func vScenarioC13(rc *runCtx) {
 		w.Exec = func(req *verifsim.ExecRequest) (verifsim.ExecChild, error) { return h(req) }
 		rc.res.Scenario["relay_in_tmux"] = "control"
 	}
+	var skip [4]int
 	var relay *TrzszRelay
 	w.Go("relay.main", relayProc, func() {
-		relay = NewTrzszRelay(cIn, cOut, sIn, sOut, TrzszOptions{})
+		relay = NewTrzszRelay(cIn, cOut, sIn, sOut, TrzszOptions{DetectTraceLog: traceLog})
 	})
+	if traceLog {
+		// the trace log is switched on first (the relay answers with the name of the log file); what is compared
+		// begins after that
+		w.Go("tracelog.on", nil, func() {
+			for k := 0; k < 2000 && relay == nil; k++ {
+				verifsim.Sleep(time.Millisecond)
+			}
+			sOut.Write([]byte("<ENABLE_TRZSZ_TRACE_LOG>\r\n"))
+		})
+		w.Run(func() bool { return bytes.Contains(cGot, []byte("trace log")) || w.Now() > 3*time.Second })
+		verifsim.Sleep(50 * time.Millisecond)
+		rc.fault("trace-log-on")
+		cGot, sGot = nil, nil
+		for k := range seen {
+			seen[k] = 0
+		}
+		skip = [4]int{cIn.NSentInt(), sOut.NSentInt(), sIn.NSentInt(), cOut.NSentInt()}
+	}
 	cDone, sDone := false, false
 	runScript := func(name string, script []vChunk, out *verifsim.Link, done *bool) {
 		w.Go(name, nil, func() {
@@ -310,6 +344,8 @@ func vScenarioC13(rc *runCtx) {
 	sOutAll, _, _ := sOut.Snapshot()
 	sInAll, _, _ := sIn.Snapshot()
 	cOutAll, _, _ := cOut.Snapshot()
+	// (what went by while the trace log was being switched on is not part of the comparison)
+	cInAll, sOutAll, sInAll, cOutAll = cInAll[vMin(skip[0], len(cInAll)):], sOutAll[vMin(skip[1], len(sOutAll)):], sInAll[vMin(skip[2], len(sInAll)):], cOutAll[vMin(skip[3], len(cOutAll)):]
 	if msg := vConserve("server-bound", cInAll, sInAll, cs, "act", plan); msg != "" {
 		rc.violate("conservation", "C13:server-bound", "%s", msg)
 		rc.detail("client wrote  %q", cInAll)
